@@ -145,7 +145,7 @@ var specs = []spec{
 		InstrPkgs:   []string{".", "pkg/storage"},
 		StmtPoints:  []string{"partDisk.Reader", "fileDisk.Finalize", "fileDisk.Reader", "fileDisk.NewPart", "fileRAM.Finalize", "fileRAM.Reader"},
 		AccessTypes: muxerSharedTypes, AccessTypePkgs: []string{"pkg/codecs"},
-		Rule:        "all interleavings with at most b deviations (b=2 quick / 3 thorough for two readers, one more for one reader) of a writer (scripts: plain frames, part / segment rotation that finalises and removes disk files, window slide, parameter change, a three-times longer segment that raises the target duration, Close) with 1-2 readers each running a 2-request script over the whole URL alphabet (multivariant, media playlist plain / blocking / delta, init, segment, part, preload hint, expired, unknown, and follow-ups of a URI taken from the reader's own previous playlist), for Low-Latency / fMP4 / MPEG-TS with RAM and Directory storage; scheduling points: the library's synchronisation operations plus every statement of the storage functions that run outside the muxer mutex; distinct = distinct (scenario, statuses); the data-race clause is decided inside every explored execution by a happens-before monitor (vector clocks over the program's own synchronisation: mutex release/acquire, channel send/close/receive, context cancel, WaitGroup, thread creation - scheduler hand-offs contribute no edge; every access to a field of the muxer, stream, segment, part, track, storage and codec structs is checked against the previous conflicting accesses of the same address), and additionally sampled by a free-running -race pass over the same bodies",
+		Rule:        "all interleavings with at most b deviations (b=2 for two readers; one reader: 2 quick / 3 thorough; thorough adds bases, warm-up points and five times as many reader pairs) of a writer (scripts: plain frames, part / segment rotation that finalises and removes disk files, window slide, parameter change, a three-times longer segment that raises the target duration, Close) with 1-2 readers each running a 2-request script over the whole URL alphabet (multivariant, media playlist plain / blocking / delta, init, segment, part, preload hint, expired, unknown, and follow-ups of a URI taken from the reader's own previous playlist), for Low-Latency / fMP4 / MPEG-TS with RAM and Directory storage; scheduling points: the library's synchronisation operations plus every statement of the storage functions that run outside the muxer mutex; distinct = distinct (scenario, statuses); the data-race clause is decided inside every explored execution by a happens-before monitor (vector clocks over the program's own synchronisation: mutex release/acquire, channel send/close/receive, context cancel, WaitGroup, thread creation - scheduler hand-offs contribute no edge; every access to a field of the muxer, stream, segment, part, track, storage and codec structs is checked against the previous conflicting accesses of the same address), and additionally sampled by a free-running -race pass over the same bodies",
 		Assumptions: schedAssumptions},
 	{ID: "C19", Pkg: ".", Level: "exploration", Procs: 1,
 		Rule:        "complete grid: constant sample duration in {90000/f ticks for 17 (all divisor and 7-/11-multiple) frame rates 1..120, 3003, 1501, 3754 at 90 kHz; 1024 samples at the 13 standard AAC rates; Opus 2.5-60 ms} x PartMinDuration 50..2000 ms step 50 (5) x SegmentMinDuration {1, 2 s} x key-frame spacing {every sample, 0.5 s, 1 s, 2.5 s, three irregular patterns incl. a short first segment}, and video-led with an audio track of each of 4 kinds starting {0, 0.5, 1.25 s} late or listed before the video track, each run long enough for three segments; every playlist of every stream served after a part is published is checked (the rendition playlists for the clauses relating a listed part to the PART-TARGET of its own playlist); distinct = distinct (grid point, observed part duration and PART-TARGET)",
@@ -177,7 +177,7 @@ var specs = []spec{
 		Assumptions: schedAssumptions},
 	{ID: "C07", Pkg: ".", Level: "model_checking", Instrument: true, RacePass: false, Procs: 1,
 		StmtPoints:  []string{"Muxer.Close", "muxerStream.close"},
-		Rule:        "all interleavings with at most b deviations (b=2 quick, 3 thorough, unbounded for scenarios with <=1 requester) of a writer that feeds k frames and then calls Close with 0..2(3) requests blocked inside the muxer (multivariant / media playlist before data, blocking reload, preload hint), from several points of the muxer's life (before data, mid-segment, mid-part, window slid), RAM and Directory storage, all three variants; followed by a sequential epilogue of one request of every kind; distinct = distinct (scenario, response statuses and completion points)",
+		Rule:        "all interleavings with at most b deviations (b=2 with two or three requesters, 3 (thorough 4) with one, unbounded with none) of a writer that feeds k frames and then calls Close with 0..2 (thorough 0..3) requests blocked inside the muxer (multivariant / media playlist before data, blocking reload, preload hint), from several points of the muxer's life (before data, mid-segment, mid-part, window slid), RAM and Directory storage, all three variants; followed by a sequential epilogue of one request of every kind; distinct = distinct (scenario, response statuses and completion points)",
 		Assumptions: schedAssumptions},
 	{ID: "C20", Pkg: ".", Level: "model_checking", Instrument: true, RacePass: true, Procs: 1,
 		AccessTypes: []string{"*"}, AccessTypePkgs: []string{"pkg/codecs"},
